@@ -239,6 +239,16 @@ func checkExt(c extCase) error {
 				return fmt.Errorf("step %d: RangeExtensions visited extension %d %d times (populated %v)", i, n, k, ok)
 			}
 		}
+		if len(cur) >= 2 {
+			calls := 0
+			proto.RangeExtensions(m, func(protoreflect.ExtensionType, any) bool {
+				calls++
+				return false
+			})
+			if calls != 1 {
+				return fmt.Errorf("step %d: RangeExtensions called f %d times although f returned false at the first call (%d extensions populated)", i, calls, len(cur))
+			}
+		}
 		// and the reflection view agrees
 		want := &model.Msg{}
 		for _, f := range cur {
